@@ -7,6 +7,7 @@ import Abmarl.Model.AdaptersDriver
 import Abmarl.Model.TwinDriver
 import Abmarl.Model.MaskDriver
 import Abmarl.Model.ConfigDriver
+import Abmarl.Model.ObserversDriver
 /-! Line-protocol driver: one request per line on stdin, one reply per line on stdout. -/
 open Abmarl
 
@@ -28,6 +29,7 @@ def dispatch (line : String) : String :=
       | "cfg_attr" => CfgDriver.handleAttr args
       | "cfg_overlap" => CfgDriver.handleOverlap args
       | "cfg_box" => CfgDriver.handleBox args
+      | "gobs" => ObserversDriver.handle args
       | "ping" => some (.list (.atom "pong" :: args))
       | _ => none
     match r with
